@@ -11,6 +11,7 @@ import (
 	"io"
 	"strings"
 	"sync"
+	"time"
 
 	"google.golang.org/grpc"
 	"google.golang.org/grpc/credentials/insecure"
@@ -84,18 +85,30 @@ func newGRPC(env *Env) (*grpcClients, error) {
 	return g, nil
 }
 
-// httpDo drives an http.Handler in-process. A panic escaping ServeHTTP is
-// returned as panicText (status 0).
+// httpDo drives an http.Handler in-process with a server-style request (Body is
+// never nil, like for a real server) whose context has a generous deadline and
+// is cancelled when the handler has returned (keto's check goroutines only
+// stop when the request context ends). A panic escaping ServeHTTP is returned
+// as panicText (status 0).
 func httpDo(h http.Handler, method, target, body string, hdr map[string]string) (status int, respBody string, panicText string) {
-	var rd io.Reader
-	if body != "" || method == "POST" || method == "PUT" || method == "PATCH" {
+	return httpDoCtx(context.Background(), 60*time.Second, h, method, target, body, hdr)
+}
+
+func httpDoCtx(parent context.Context, timeout time.Duration, h http.Handler, method, target, body string, hdr map[string]string) (status int, respBody string, panicText string) {
+	var rd io.Reader = http.NoBody
+	if body != "" {
 		rd = strings.NewReader(body)
 	}
-	req, err := http.NewRequest(method, "http://keto.test"+target, rd)
+	ctx, cancel := context.WithTimeout(parent, timeout)
+	defer cancel()
+	req, err := http.NewRequestWithContext(ctx, method, "http://keto.test"+target, rd)
 	if err != nil {
 		return -1, "", ""
 	}
 	req.RequestURI = target
+	if body == "" {
+		req.Body = http.NoBody
+	}
 	for k, v := range hdr {
 		req.Header.Set(k, v)
 	}
